@@ -1181,7 +1181,35 @@ def check_index(rep, ix):
     rep.ob('R-C18-INDEX', site, 'the index is written through an XmlStream used as a context manager', ok, node=f, module=m)
 
 
+def check_sources(rep, ix):
+    """text read from source files reaches the writers as ordinary code points: a decoding error policy that smuggles undecodable
+    bytes through as lone surrogates (surrogateescape / surrogatepass) hands the writer characters no XML document can carry"""
+    from . import imports
+    roots = ['TotalDepth.LAS.LASToHTML', 'TotalDepth.LIS.LisToHtml', 'TotalDepth.RP66V1.ScanHTML', 'TotalDepth.RP66V1.IndexXML', 'TotalDepth.PlotLogs']
+    n = 0
+    for mname in sorted(imports.closure(ix, [r for r in roots if ix.has_module(r)])):
+        mod = ix.module(mname)
+        for c in ast.walk(mod.tree):
+            if not isinstance(c, ast.Call):
+                continue
+            fn = _n(c.func)
+            if not (fn == 'open' or fn.endswith('.decode') or fn in ('str', 'io.open', 'codecs.open', 'io.TextIOWrapper')):
+                continue
+            pol = [k.value for k in c.keywords if k.arg == 'errors']
+            if fn.endswith('.decode') and len(c.args) >= 2:
+                pol.append(c.args[1])
+            for v in pol:
+                n += 1
+                val = v.value if isinstance(v, ast.Constant) else None
+                ok = isinstance(val, str) and val not in ('surrogateescape', 'surrogatepass')
+                rep.ob('R-C18-SOURCE', f'{mname}:{common.qual_of(c) if hasattr(common, "qual_of") else fn}', f'{fn}(..., errors={_n(v)}) yields only code points a document can carry', ok,
+                       found=_n(v), required="'replace', 'ignore', 'strict', 'backslashreplace' or 'xmlcharrefreplace'", node=c, module=mod)
+    return n
+
+
 def run(rep, ix, tier):
+    check_sources(rep, ix)
+    rep.floor('R-C18-SOURCE', 1)
     check_encode(rep, ix)
     check_sinks(rep, ix)
     check_callsites(rep, ix)
